@@ -228,7 +228,7 @@ def m_cases(tier):
     for (nt, om, ol, lm) in (((1, False, False, True), (2, False, False, True), (2, True, False, True), (1, True, True, False)) if tier == "quick" else
                              [(nt, om, ol, lm) for nt in (1, 2, 3) for om in (False, True) for ol in (False, True) for lm in (False, True)]):
         cs.append(train_parts_case(nt, om, ol, lm))
-    for pat in (("SS", "NN", "SN", "SSS") if tier == "quick" else ("S", "N", "SS", "NN", "SN", "NS", "SSS", "NNN", "SNS", "SSSS")):
+    for pat in ("S", "N", "SS", "NN", "SN", "NS", "SSS", "NNN", "SNS", "NSS", "SSN", "SSSS"):  # every order of known / unknown units is cheap: all in the quick tier
         cs += consist_case(pat)
     kinds = ("fc", "gen", "res")
     for kind in kinds:
